@@ -27,9 +27,14 @@ class World(object):
         names = CLASS[klass]
         kind = self.cat.BY_NAME[names[pick % len(names)]] if app else self.cat.BY_NAME["out.iq.ping"]
         ent = kind.make_entity(self.rng)
-        # the id comes from the library's own generator, as for every request an application builds
-        ent._id = ent._generateId(True)
-        self.id_collision = any(e.getId() == ent._id for _, e in self.reqs)
+        # the id comes from the library itself, as for every request an application builds: through the public constructor where that
+        # takes no id (pings), else from the library's own generator
+        if kind.name == "out.iq.ping":
+            from yowsup.layers.protocol_iq.protocolentities import PingIqProtocolEntity
+            ent = PingIqProtocolEntity()
+        else:
+            ent._id = ent._generateId(True)
+        self.id_collision = any(e.getId() == ent.getId() for _, e in self.reqs)
         mid = len(self.reqs) + 1
         self.reqs.append((kind, ent))
         before = len(self.bottom.down)
@@ -61,13 +66,24 @@ class World(object):
 
     def reply_node(self, kind, ent, typ):
         if typ != "result":
-            return kind.iq_reply["error"](self.rng, ent)
+            return self.vary_from(kind.iq_reply["error"](self.rng, ent))
         # every result shape the catalogue knows for this request (e.g. the <duplicate> form of an upload result)
         builders = [lambda: kind.iq_reply["result"](self.rng, ent)]
         for k in self.cat.KINDS:
             if k.direction == "in" and k.solicited_by == kind.name and k.name.startswith("in.iq.result"):
                 builders.append(lambda k=k: k.make_node(self.rng, request=ent))
-        return self.rng.choice(builders)()
+        node = self.rng.choice(builders)()
+        return self.vary_from(node)
+
+    def vary_from(self, node):
+        """Replies are correlated by id: the sender attribute of a reply varies between servers and reply kinds (present, absent, the
+        bare domain) and decides nothing."""
+        c = self.rng.random()
+        if c < 0.15 and node["from"] is not None:
+            node.removeAttribute("from")
+        elif c < 0.3:
+            node["from"] = "s.whatsapp.net"
+        return node
 
     def deliver(self, mid, typ):
         kind, ent = self.reqs[mid - 1]
